@@ -1,4 +1,280 @@
 package main
 
-func lenReplay(path string)        {}
-func lenRecord(out string, n int) {}
+// C08: Msg.Len / Len(rr) never under-estimate, are exact for plain messages; Pack and
+// PackBuffer always have room; PackBuffer uses the caller's buffer when it is large enough.
+
+import (
+	"bytes"
+	"fmt"
+
+	"github.com/miekg/dns"
+
+	"verifharness/lib/hx"
+	"verifharness/lib/wire"
+)
+
+type lvec struct {
+	vec
+	Plain bool `json:"plain"`
+}
+
+func cTag(compress bool) string {
+	if compress {
+		return "compress"
+	}
+	return "plain-wire"
+}
+
+// ---------------------------------------------------------------- vectors
+
+func lenReplay(path string) {
+	var sum hx.Summary
+	n := 0
+	skipped := 0
+	shorter = 0
+	hx.ReadNDJSON(path, func(i int, v *lvec) {
+		if !v.Ok || inexpressible(&v.Msg) != "" {
+			return
+		}
+		sum.Evaluations++
+		if p := hx.Catch(func() {
+			if lenOne(v, &sum) {
+				skipped++
+			}
+		}); p != "" {
+			sum.Mis("len/panic:"+L.MsgKey(&v.Msg), "panic: "+p, small(&v.vec))
+		}
+		if v.Plain {
+			n++
+		}
+		if i%499 == 0 && len(v.Bytes) < 300 {
+			sum.Sample(map[string]interface{}{"g": v.G, "v": v.V, "lenmsg": v.Lenmsg, "plain": v.Plain})
+		}
+	})
+	sum.Nontrivial = n // vectors under the exactness clause
+	sum.Note("pack_differs_from_spec_octets_left_to_C01", skipped)
+	sum.Note("vectors_compression_shortened", shorter)
+	sum.Print()
+}
+
+// probeBuffers exercises PackBuffer with buffers of the given lengths; u is the uncompressed
+// length in the strictest reading (true length), pred the library's own prediction of it.
+type probe struct {
+	N       int    `json:"n"`
+	Err     string `json:"err"`     // "" | "ErrBuf" | other text
+	Same    bool   `json:"same"`    // result equals Pack()
+	Inplace bool   `json:"inplace"` // result starts at the caller's buffer
+}
+
+func probeBuffers(build func() *dns.Msg, ref []byte, sizes []int) []probe {
+	out := []probe{}
+	for _, n := range sizes {
+		m := build()
+		buf := make([]byte, n)
+		for i := range buf {
+			buf[i] = 0xAA
+		}
+		p := probe{N: n}
+		b, err := m.PackBuffer(buf)
+		switch {
+		case err == dns.ErrBuf:
+			p.Err = "ErrBuf"
+		case err != nil:
+			p.Err = err.Error()
+		default:
+			p.Same = bytes.Equal(b, ref)
+			p.Inplace = n > 0 && len(b) > 0 && &b[0] == &buf[0]
+		}
+		out = append(out, p)
+	}
+	return out
+}
+
+var shorter int // vectors whose compressed packing is shorter than the uncompressed one (non-vacuity of the Compress = TRUE half)
+
+func sizesFor(u int) []int { return []int{0, u, u + 1, u + 2, 2 * u} }
+
+func lenOne(v *lvec, sum *hx.Summary) (c01 bool) {
+	key := L.MsgKey(&v.Msg)
+	build := func(compress bool) *dns.Msg {
+		m, err := L.BuildMsg(&v.Msg)
+		if err != nil {
+			hx.Die("vector %s %v: %v", v.G, v.V, err)
+		}
+		m.Compress = compress
+		return m
+	}
+	pred := build(false).Len() // the library's notion of "the uncompressed length"
+	for _, compress := range []bool{false, true} {
+		tag := cTag(compress)
+		m := build(compress)
+		l := m.Len()
+		b, err := m.Pack()
+		if err != nil {
+			k := "len/pack-error:"
+			if err == dns.ErrBuf {
+				k = "len/pack-errbuf:"
+			}
+			sum.Mis(k+key, fmt.Sprintf("Pack() of a packable message (%s): %v (Len() = %d, spec length %d)", tag, err, l, v.Lenmsg), small(&v.vec))
+			continue
+		}
+		if !compress && !bytes.Equal(b, v.Bytes.Bytes()) {
+			c01 = true // the octets are wrong: C01's finding; the length clauses below still apply to what was packed
+		}
+		if compress && len(b) < v.Lenmsg {
+			shorter++
+		}
+		if compress && len(b) > v.Lenmsg && !c01 {
+			sum.Mis("len/compressed-longer:"+key, fmt.Sprintf("compressed message has %d octets, uncompressed (spec) %d", len(b), v.Lenmsg), small(&v.vec))
+		}
+		if l < len(b) {
+			sum.Mis("len/underestimate:"+key+":"+tag, fmt.Sprintf("Len() = %d < len(Pack()) = %d", l, len(b)), small(&v.vec))
+		} else if v.Plain && l != len(b) {
+			sum.Mis("len/inexact:"+key+":"+tag, fmt.Sprintf("Len() = %d, len(Pack()) = %d on a message of common types with escape-free content", l, len(b)), small(&v.vec))
+		}
+		// PackBuffer: never ErrBuf, same octets, in place when the buffer is larger than the uncompressed length.
+		// "the uncompressed length" is the true one (spec) or the library's prediction: only buffers larger than both must be used (AMBIG)
+		u := v.Lenmsg
+		need := u
+		if pred > need {
+			need = pred
+		}
+		for _, p := range probeBuffers(func() *dns.Msg { return build(compress) }, b, sizesFor(u)) {
+			switch {
+			case p.Err == "ErrBuf":
+				sum.Mis("len/packbuffer-errbuf:"+key+":"+tag, fmt.Sprintf("PackBuffer(buf of %d) = ErrBuf, message needs %d", p.N, len(b)), small(&v.vec))
+			case p.Err != "":
+				sum.Mis("len/packbuffer-error:"+key+":"+tag, fmt.Sprintf("PackBuffer(buf of %d): %s", p.N, p.Err), small(&v.vec))
+			case !p.Same:
+				sum.Mis("len/packbuffer-octets:"+key+":"+tag, fmt.Sprintf("PackBuffer(buf of %d) differs from Pack()", p.N), small(&v.vec))
+			case p.N > need && !p.Inplace:
+				sum.Mis("len/packbuffer-not-in-place:"+key+":"+tag, fmt.Sprintf("PackBuffer(buf of %d) allocated although the uncompressed length is %d (predicted %d)", p.N, u, pred), small(&v.vec))
+			}
+		}
+	}
+	// record level: Len(rr) against the spec's record lengths
+	if c01 {
+		return
+	}
+	m := build(false)
+	if _, err := m.Pack(); err != nil { // sets the extended RCODE in OPT exactly as the message-level packing does
+		return
+	}
+	rrs := append(append(append([]dns.RR{}, m.Answer...), m.Ns...), m.Extra...)
+	arrs := v.Msg.RRs()
+	if len(v.Rroff) != len(rrs)+1 {
+		return
+	}
+	for i, rr := range rrs {
+		want := v.Rroff[i+1] - v.Rroff[i]
+		got := dns.Len(rr)
+		k := L.KeyOf(arrs[i])
+		if got < want {
+			sum.Mis("len/rr-underestimate:"+k, fmt.Sprintf("Len(rr) = %d, the record has %d octets", got, want), small(&v.vec))
+		} else if v.Plain && got != want {
+			sum.Mis("len/rr-inexact:"+k, fmt.Sprintf("Len(rr) = %d, the record has %d octets (common type, escape-free)", got, want), small(&v.vec))
+		}
+	}
+	return
+}
+
+// ---------------------------------------------------------------- recorded events (judged by Trace_CompressLen)
+
+type levent struct {
+	Key      string    `json:"key"`
+	Msg      *wire.Msg `json:"msg"`
+	Compress bool      `json:"compress"`
+	Packed   bool      `json:"packed"`
+	PackErr  string    `json:"packerr"`
+	Len      int       `json:"len"`     // Msg.Len() under the message's compression setting
+	Ulen     int       `json:"ulen"`    // Msg.Len() with Compress = false: the library's "uncompressed length"
+	Packlen  int       `json:"packlen"` // len(Pack())
+	RRLen    [][]int   `json:"rrlen"`   // per record: Len(rr), octets PackRR produced (uncompressed)
+	Probes   []probe   `json:"probes"`
+}
+
+func lenObserve(a *wire.Msg, compress bool, sum *hx.Summary) levent {
+	e := levent{Key: L.MsgKey(a), Msg: a, Compress: compress, RRLen: [][]int{}, Probes: []probe{}}
+	build := func(c bool) *dns.Msg {
+		m, err := L.BuildMsg(a)
+		if err != nil {
+			hx.Die("message cannot be built: %v", err)
+		}
+		m.Compress = c
+		return m
+	}
+	p := hx.Catch(func() {
+		e.Ulen = build(false).Len()
+		m := build(compress)
+		e.Len = m.Len()
+		b, err := m.Pack()
+		if err != nil {
+			e.PackErr = err.Error()
+			if err == dns.ErrBuf {
+				e.PackErr = "ErrBuf"
+			}
+			return
+		}
+		e.Packed, e.Packlen = true, len(b)
+		for _, rr := range append(append(append([]dns.RR{}, m.Answer...), m.Ns...), m.Extra...) {
+			buf := make([]byte, dns.Len(rr)+300)
+			off, err := dns.PackRR(rr, buf, 0, nil, false)
+			if err != nil {
+				off = -1
+			}
+			e.RRLen = append(e.RRLen, []int{dns.Len(rr), off})
+		}
+		// the true uncompressed length, observed: the specification's LenMsg is the judge of it in TLC
+		ub, err := build(false).Pack()
+		if err != nil {
+			return
+		}
+		e.Probes = probeBuffers(func() *dns.Msg { return build(compress) }, b, sizesFor(len(ub)))
+	})
+	if p != "" {
+		sum.Mis("len/panic:"+e.Key, "panic: "+p, a)
+	}
+	return e
+}
+
+func lenRecord(out string, n int) {
+	g := newGen(hx.Rand())
+	g.noExotic = true
+	w := hx.NewWriter(out)
+	defer w.Close()
+	var sum hx.Summary
+	big, plain := 0, 0
+	for i := 0; i < n; i++ {
+		sum.Evaluations++
+		g.plain = i%3 == 0
+		g.big = i%25 == 7
+		g.related = true
+		a := g.message()
+		e := lenObserve(a, g.r.Intn(3) != 0, &sum)
+		if e.Packlen > 16384 {
+			big++
+		}
+		if g.plain {
+			plain++
+		}
+		w.Emit(e)
+		if i < 2 && e.Packlen < 200 {
+			sum.Sample(e)
+		}
+	}
+	sum.Nontrivial = plain
+	sum.Note("events", w.N)
+	sum.Note("events_beyond_16384_octets", big)
+	sum.Print()
+}
+
+func lenReexec(in, out string) {
+	w := hx.NewWriter(out)
+	defer w.Close()
+	var sum hx.Summary
+	hx.ReadNDJSON(in, func(i int, e *levent) {
+		sum.Evaluations++
+		w.Emit(lenObserve(e.Msg, e.Compress, &sum))
+	})
+	sum.Print()
+}
